@@ -23,6 +23,8 @@ PROP = None
 DEPTH = 3
 NEW_SOURCES = ['\\new{n}', '\\textit{it}', '\\begin{q}z\\end{q}']
 NEW_STRINGS = ['TXT', ' s ']
+NEW_NESTED = [('\\textbf{\\new{n}}', 'new'), ('\\begin{itemize}\\item \\textit{it} x\\end{itemize}', 'textit'), ('{\\new{n}}', 'new'),
+              ('\\foo[\\new{n}]{a}', 'new')]
 
 
 class M:
@@ -80,7 +82,7 @@ def container_of(m):
     raise LookupError
 
 
-def fresh_material(rnd, k):
+def fresh_material(rnd, k, table=None):
     """k new items: plain strings or copies of nodes parsed elsewhere; returns (real items, model items)"""
     real, model = [], []
     for _ in range(k):
@@ -89,11 +91,15 @@ def fresh_material(rnd, k):
             real.append(s)
             model.append(s)
         else:
-            src = rnd.choice(NEW_SOURCES)
-            node = list(TexSoup(src).children)[0].copy()
+            if rnd.random() < 0.5:
+                src = rnd.choice(NEW_SOURCES)
+                node = list(TexSoup(src).children)[0].copy()
+            else:       # a copy of a node that was parsed *inside* an argument group, an \\item or a brace group elsewhere
+                src, name = rnd.choice(NEW_NESTED)
+                node = TexSoup(src).find(name).copy()
             real.append(node)
-            t = {}
-            model.append(mirror(node.expr, t))
+            # the inserted expression joins the identity table, so later steps of a history may target it
+            model.append(mirror(node.expr, table if table is not None else {}))
     return real, model
 
 
@@ -206,7 +212,7 @@ def run(seed):
                 node.delete()
                 del lst[i]
             elif op == 'replace':
-                real, model = fresh_material(rnd, rnd.randrange(1, 4))
+                real, model = fresh_material(rnd, rnd.randrange(1, 4), table)
                 lst, i = container_of(m)
                 node.replace_with(*real)
                 lst[i:i + 1] = model
@@ -217,7 +223,7 @@ def run(seed):
             elif op in ('insert', 'append'):
                 if m.cls not in ('env', 'delim') and not (m.cls == 'cmd' and m.name == 'item'):
                     continue
-                real, model = fresh_material(rnd, rnd.randrange(1, 3))
+                real, model = fresh_material(rnd, rnd.randrange(1, 3), table)
                 if op == 'insert':
                     i = rnd.randrange(0, len(m.contents) + 1)
                     node.insert(i, *real)
@@ -301,7 +307,6 @@ def run(seed):
             if c:
                 return [(finding_class(op, False, inserted) or 'views-inconsistent',
                          'document %r after %s: %s' % (s, '; '.join(hist), c))]
-        # nodes created by the edit are not in the identity table: later steps target original nodes only
     return []
 
 
